@@ -166,7 +166,7 @@ def run_shard(spec):
             res = conc.explore(prog, runner, r, spec["tier"],
                                {"cls": prog["cls"], "strategy": catalog.info(prog["cls"]).strategy,
                                 "stratum": meta["stratum"], "topology": meta["topology"], "cap": meta["cap"]},
-                               policies=pol, check_extra=_extra)
+                               policies=pol, check_extra=_extra, deadline=t0 + BUDGET[spec["tier"]] * 1.5)
         finally:
             runner.close()
         out["evaluations"] += res["runs"]
@@ -186,6 +186,8 @@ def run_shard(spec):
         sites |= res["sites"]
         if res["inconclusive"]:
             c["inconclusive_runs"] = c.get("inconclusive_runs", 0) + len(res["inconclusive"])
+        if res.get("cut_by_deadline"):
+            c["programs_cut_by_deadline"] = c.get("programs_cut_by_deadline", 0) + 1
         if res["violations"]:
             out["violations"].extend(res["violations"][:1])
         if len(out["samples"]) < 1:
